@@ -825,7 +825,8 @@ Proof.
 Qed.
 Print Assumptions C08_ticket_nonvacuous.
 
-(** Tokens: an issued token decodes to what was sealed (C14's lemma, restated for the codec claim) ... *)
+(** Tokens: an issued token decodes to what was sealed exactly when the connection IDs of a Retry record
+    fit 20 bytes, and to an error otherwise (the repaired DecodeToken, fixes/C08-6; C14's lemma) ... *)
 Theorem C08_token_roundtrip :
   forall (K : Type) (prot_seal : K -> list Z -> list Z -> list Z)
          (prot_open : K -> list Z -> list Z -> option (list Z))
@@ -833,9 +834,16 @@ Theorem C08_token_roundtrip :
          (sealed : K -> list Z -> list Z -> Prop),
   oracles_correct prot_seal prot_open marshal unmarshal sealed ->
   forall k enc r, issued K prot_seal marshal sealed k enc r ->
-  decode K prot_open unmarshal k enc = DTok (tok_of_rec r).
+  decode K prot_open unmarshal k enc = if cids_ok r then DTok (tok_of_rec r) else DErr.
 Proof. exact decode_issued. Qed.
 Print Assumptions C08_token_roundtrip.
+
+(** both branches occur: a Retry record with a 21-byte connection ID is refused, ordinary ones are not *)
+Example C08_token_roundtrip_branches :
+  cids_ok (Rec true [4; 1] 7 0 (repeat 1 21) [2]) = false /\ cids_ok (Rec true [4; 1] 7 0 (repeat 1 20) [2]) = true /\
+  cids_ok (Rec false [4; 1] 7 0 (repeat 1 21) []) = true.
+Proof. repeat split; reflexivity. Qed.
+Print Assumptions C08_token_roundtrip_branches.
 
 (** ... and whatever is too short for the nonce, cannot be opened, or carries bytes behind the
     ASN.1 record is an error (never a token, never "no token"); only the empty string is "no token". *)
